@@ -1,4 +1,59 @@
+/-
+  C03 — decoding against the reference: assembly of the helper developments.
+
+  * DecodeRefReaders : varint / tag / scalar / packed-run / unknown-record agreement
+  * DecodeRefEntry   : map-entry loops
+  * DecodeRefKnown   : per-shape handling of declared fields
+  * DecodeRefLoop    : record loop and tree recursion (`closure_agree`)
+  * DecodeRefWalk    : the reference decoder's results pass the `checkInitialized` walk
+  * DecodeRefTyped   : so do well-typed junk-free merge targets
+  * DecodeRefStrict  : strict acceptance ⇒ plain acceptance
+-/
 import Pulsar.Typing
 import Pulsar.Proofs.Runtime
+import Pulsar.Proofs.DecodeRefLoop
+import Pulsar.Proofs.DecodeRefTyped
+import Pulsar.Proofs.DecodeRefStrict
 namespace Pulsar
+
+/-- The closure on the start value, plus the `checkInitialized` walk on its result. -/
+theorem unmarshal_agree_start (S : Schema) (o : UOpts) (i : Nat) (start : Val) (bs : Bytes) (v : Val)
+    (hl : bs.length < 9223372036854775808)
+    (hnn : start.isNone = false) (hnp : NoPanic S i start)
+    (h : specDecodeInto true S o (bs.length + 1) 10000 i start bs = .ok v) :
+    implUnmarshalClosure S o (bs.length + 1) 10000 i start bs = .ok v ∧
+      walkPanics S (bs.length + 2) i v = false := by
+  obtain ⟨hc, _⟩ := closure_agree S o (bs.length + 1) 10000 10000 i start bs v
+    (Or.inl ⟨by omega, rfl⟩) hnn hl h
+  exact ⟨hc, walkPanics_eq_false S _ i v⟩
+
+theorem unmarshal_agree (S : Schema) (o : UOpts) (i : Nat) (m0 : Val) (bs : Bytes) (v : Val)
+    (hl : bs.length < 9223372036854775808)
+    (hnn : o.merge = false → m0.isNone = false)
+    (hm : o.merge = false ∨ msgOK S false (m0.depth + 1) i m0 = true)
+    (h : specUnmarshalStrict S o i m0 bs = .ok v) :
+    implUnmarshal S o i m0 bs = .ok v := by
+  unfold specUnmarshalStrict at h
+  unfold implUnmarshal
+  cases hmerge : o.merge with
+  | false =>
+    have hn := hnn hmerge
+    simp only [hmerge, Bool.false_eq_true, if_false, hn] at h ⊢
+    obtain ⟨hc, hw⟩ :=
+      unmarshal_agree_start S o i _ bs v hl (emptyMsg_isNone S i) (noPanic_all S i _) h
+    simp [hc, hw]
+  | true =>
+    simp only [hmerge, if_true] at h ⊢
+    have hok : msgOK S false (m0.depth + 1) i m0 = true := by
+      rcases hm with hm | hm
+      · rw [hmerge] at hm; exact absurd hm (by simp)
+      · exact hm
+    obtain ⟨s, u, rfl⟩ := msgOK_isMsg hok
+    obtain ⟨hc, hw⟩ := unmarshal_agree_start S o i _ bs v hl rfl (msgOK_noPanic hok) h
+    simp [hc, hw]
+
+theorem strict_implies_reference (S : Schema) (o : UOpts) (i : Nat) (m0 : Val) (bs : Bytes) (v : Val)
+    (h : specUnmarshalStrict S o i m0 bs = .ok v) : specUnmarshal S o i m0 bs = .ok v :=
+  strict_into S o _ _ _ _ _ _ h
+
 end Pulsar
